@@ -27,7 +27,9 @@ def facts_for(patch, refresh=False):
         return out, ""
     tmp = tempfile.mkdtemp(prefix="hcsa-ev-")
     work = os.path.join(tmp, "repo")
-    subprocess.run(["git", "-C", REPO, "worktree", "add", "--detach", "-q", work, "HEAD"], check=True)
+    from hcsa.selftest import _wt_flock
+    with _wt_flock():
+        subprocess.run(["git", "-C", REPO, "worktree", "add", "--detach", "-q", work, "HEAD"], check=True)
     try:
         if os.path.exists(os.path.join(REPO, "Cargo.lock")) and not os.path.exists(os.path.join(work, "Cargo.lock")):
             shutil.copy(os.path.join(REPO, "Cargo.lock"), os.path.join(work, "Cargo.lock"))
@@ -41,8 +43,9 @@ def facts_for(patch, refresh=False):
         open(stamp, "w").write(want)
         return out, ""
     finally:
-        subprocess.run(["git", "-C", REPO, "worktree", "remove", "--force", work], capture_output=True)
-        subprocess.run(["git", "-C", REPO, "worktree", "prune"], capture_output=True)
+        with _wt_flock():
+            subprocess.run(["git", "-C", REPO, "worktree", "remove", "--force", work], capture_output=True)
+            subprocess.run(["git", "-C", REPO, "worktree", "prune"], capture_output=True)
         shutil.rmtree(tmp, ignore_errors=True)
 
 
